@@ -43,6 +43,8 @@ def width(t):
         return 128, False
     if 'm256' in t:
         return 256, False
+    if 'intptr_t' in t or t.endswith('ptrdiff_t') or t.endswith('size_t'):
+        return 64, not (t.startswith('u') or 'uintptr' in t or t.endswith('size_t') and not t.endswith('ssize_t'))
     if '128' in t and 'int' in t:
         return 128, not ('uint' in t or 'unsigned' in t)
     signed = not (t.startswith('u') or 'unsigned' in t or t in ('size_t',))
